@@ -109,6 +109,8 @@ inline std::uint64_t splitmix(std::uint64_t& s) {
 struct Ctx {
   std::uint64_t seed = 0;
   std::uint64_t state = 0;
+  bool correlated = false;    // operands of equal type are copies (or negations) of each other in this execution
+  std::uint64_t exec_id = 0;  // unique per execution (warm/E0/E1 ...), used to scope the correlated-operand memo
   int vclass = -1;            // >=0: every number drawn in this op comes from that one special class (uniform operands)
   long forced[2] = {-1, -1};  // explicit selectors (enumerator / literal index) for exhaustive sweeps
   int forced_used = 0;
@@ -126,6 +128,9 @@ struct Ctx {
     seed = sd; state = sd; forced[0] = p0; forced[1] = p1; forced_used = 0; os = o;
     h = 1469598103934665603ULL; result_len = 0; invalid_enum = false; invalid_enum_what = nullptr;
     nonfinite_result = false; text.clear(); sv_used = 0;
+    static std::uint64_t counter = 0;
+    exec_id = ++counter;
+    correlated = vclass < 0 && ((sd >> 40) & 3) == 0;
   }
   std::uint64_t next() { return splitmix(state); }
   std::uint64_t below(std::uint64_t n) { return n ? next() % n : 0; }
@@ -214,14 +219,50 @@ extern const char* const kNumberGrammar[];
 extern const int kNumberGrammarSize;
 std::string arbitrary_bytes(Ctx& c);                   // includes NUL and non-ASCII
 std::string mutate(Ctx& c, const std::string& s);      // one-byte mutations / truncation / extension
-std::string number_like(Ctx& c);                       // numeric grammar, printed values, mutations
+std::string number_like(Ctx& c);
+inline std::string short_string(std::uint64_t idx) {  // index into the enumeration of all byte strings of length 0, 1, 2
+  if (idx == 0) return std::string();
+  if (idx <= 256) return std::string(1, static_cast<char>(idx - 1));
+  idx -= 257;
+  std::string s(2, '\0');
+  s[0] = static_cast<char>((idx >> 8) & 0xFF);
+  s[1] = static_cast<char>(idx & 0xFF);
+  return s;
+}                       // numeric grammar, printed values, mutations
 
 // ---------------------------------------------------------------------------------- Maker / consume
 template <class X, class Enable = void>
 struct Maker;  // specialisations: arithmetic, enums (generated), containers, PhQ types (generated)
 
+// Correlated operands: in a quarter of the executions (decided by the op's seed) every class-type operand of
+// a type that was already made in this execution is a copy of the first one -- or, for the second request,
+// its negation where the type can be scaled by -1 -- so relations *between* arguments are reached: equal or
+// exactly antiparallel vectors, a quantity compared with or divided by itself, identical tensors.
+template <class, class = void> struct is_raw_vector : std::false_type {};   // PhQ::Vector / PhQ::PlanarVector (not quantities)
+template <class X> struct is_raw_vector<X, std::void_t<decltype(std::declval<const X&>().MagnitudeSquared()), decltype(X::Zero())>>
+  : std::integral_constant<bool, !std::is_same<decltype(std::declval<const X&>().MagnitudeSquared()), void>::value> {};
+template <class, class = void> struct has_Value_early : std::false_type {};
+template <class X> struct has_Value_early<X, std::void_t<decltype(std::declval<const X&>().Value())>> : std::true_type {};
+
 template <class X>
-inline X make(Ctx& c) { return Maker<X>::make(c); }
+inline X make(Ctx& c) {
+  if constexpr (std::is_class<X>::value && std::is_copy_constructible<X>::value && !std::is_same<X, std::string>::value &&
+                !std::is_same<X, std::string_view>::value) {
+    if (c.correlated) {
+      static thread_local std::optional<X> first;
+      static thread_local std::uint64_t owner = 0;
+      static thread_local int uses = 0;
+      if (owner != c.exec_id) { owner = c.exec_id; first.reset(); uses = 0; }
+      if (!first.has_value()) { first.emplace(Maker<X>::make(c)); return *first; }
+      ++uses;
+      if constexpr (is_raw_vector<X>::value && !has_Value_early<X>::value) {
+        if (uses == 1 && (c.seed >> 17) & 1) return *first * static_cast<decltype(first->MagnitudeSquared())>(-1);   // exactly antiparallel
+      }
+      return *first;
+    }
+  }
+  return Maker<X>::make(c);
+}
 
 template <class T>
 struct Maker<T, std::enable_if_t<std::is_floating_point<T>::value>> {
@@ -246,8 +287,8 @@ struct Maker<std::array<T, N>> {
 template <class T>
 struct Maker<std::vector<T>> {
   static std::vector<T> make(Ctx& c) {
-    static const int sizes[] = {0, 0, 1, 2, 3, 4, 7, 8, 9, 16, 33, 64};
-    std::vector<T> v(static_cast<size_t>(sizes[c.below(12)]));
+    static const int sizes[] = {0, 0, 1, 2, 3, 4, 7, 8, 9, 16, 33, 64, 255, 1000, 4097};
+    std::vector<T> v(static_cast<size_t>(sizes[c.below(c.below(6) ? 12 : 15)]));
     for (auto& x : v) x = vrt::make<T>(c);
     return v;
   }
